@@ -1269,6 +1269,14 @@ def near_uniform_bg(rng, alpha):
     "different from uniform" must be decided exactly, not up to a tolerance"""
     K = K_of(alpha)
     n = K - 1
+    if n == 4 and rng.chance(1, 2):
+        # one or two units in the last place of 0.25 (2^-25 is the spacing just above 0.25): sums to exactly one
+        eps = rng.pick([2.0 ** -23, 2.0 ** -24, 2.0 ** -22])
+        i, j = rng.pick([(0, 1), (2, 3), (0, 3), (1, 2)])
+        f = [0.25] * 4
+        f[i] += eps
+        f[j] -= eps
+        return [f32_bits(r32(x)) for x in f] + [f32_bits(0.0)]
     den = 4096 * n
     ks = [4096] * n                       # uniform = 4096 / den
     for _ in range(rng.range(1, 3)):
@@ -1375,6 +1383,8 @@ def load_cases(rng, fmt, prot, data, cuts):
         big = data * (9000 // len(data) + rng.range(1, 3))
         out.append(f"c17load ? greedy {hexs(fmt)} {prot} 0 | {hexs(big)} {rng.below(1 << 32)} -")
         out.append(f"c17load ? {rng.pick(['binary', 'path'])} {hexs(fmt)} {prot} 0 | {hexs(big)} 0 -")
+        # … and through a file object with short reads (the reader's buffer is refilled across many reads)
+        out.append(f"c17load ? chunked {hexs(fmt)} {prot} 0 | {hexs(big)} {rng.below(1 << 32)} -")
     return out
 
 
@@ -1404,7 +1414,7 @@ def generate(cfg, core, out):
             uni = uniform_bits(alpha)
             bgs = [("n",), ("o",), ("f", f32_bits(0.25)), dict_of(alpha, uni), dict_of(alpha, grid_bg(rng, alpha, False)),
                    dict_of(alpha, grid_bg(rng, alpha, True)), dict_of(alpha, grid_bg(rng, alpha, False)),
-                   dict_of(alpha, near_uniform_bg(rng, alpha)),
+                   dict_of(alpha, near_uniform_bg(rng, alpha)), dict_of(alpha, near_uniform_bg(rng, alpha)),
                    ("d", [(le[0], f32_bits(0.5)), (le[1], f32_bits(0.25))]),          # sums to 0.75
                    ("d", [(le[0], f32_bits(1.5)), (le[1], f32_bits(-0.5))]),          # outside [0, 1]
                    ("d", [(le[0], f32_bits(1.0))]), ("d", [])] + bad_dicts(rng, alpha)[:5]
